@@ -852,7 +852,10 @@ class Where(EnvironmentFilter):
     def _context_len(self,firstn) -> int:
         try:
             context = firstn[0].get('context')
-            return try_else(lambda: len(context), 1) if context or context == 0 else 0
+            #no context has no features, a dense or sparse context has a feature per value
+            #and any other context (a number or a string) is a value and so a single feature
+            if context is None: return 0
+            return len(context) if isinstance(context,(primitives.Dense,primitives.Sparse)) else 1
         except:
             return 0
 
